@@ -8,26 +8,26 @@ Require Import Naga.IR.Syntax Naga.Valid.ValidatorModel Naga.Valid.ValidatorMode
 Open Scope Z_scope.
 
 (* ---- local fixpoints ---- *)
-Lemma vblock_fx_loc E : forall b cb cc ic k,
+Lemma vblock_fx_loc E kc : forall b cb cc ic k,
   (fix vb (cb cc ic : bool) (k : Z) (b : list stmt) {struct b} : list verror :=
-     match b with [] => [] | x :: b' => vstmt_fx E cb cc ic k x ++ vb cb cc ic (k + 1) b' end) cb cc ic k b
-  = vblock_fx E cb cc ic k b.
+     match b with [] => [] | x :: b' => vstmt_fx E kc cb cc ic k x ++ vb cb cc ic (k + 1) b' end) cb cc ic k b
+  = vblock_fx E kc cb cc ic k b.
 Proof. induction b as [|x b IH]; intros; cbn [vblock_fx]; [reflexivity|]. now rewrite IH. Qed.
 
-Lemma vfx_SBlock E cb cc ic i b : vstmt_fx E cb cc ic i (SBlock b) = vblock_fx E cb cc ic 0 b.
+Lemma vfx_SBlock E kc cb cc ic i b : vstmt_fx E kc cb cc ic i (SBlock b) = vblock_fx E kc cb cc ic 0 b.
 Proof. cbn [vstmt_fx]. apply vblock_fx_loc. Qed.
-Lemma vfx_SIf E cb cc ic i c a r :
-  vstmt_fx E cb cc ic i (SIf c a r) =
-  bad_operands E (err_stmt (e_fname E) i) VStmtOperand [c] ++ vblock_fx E cb cc ic 0 a ++ vblock_fx E cb cc ic 0 r.
+Lemma vfx_SIf E kc cb cc ic i c a r :
+  vstmt_fx E kc cb cc ic i (SIf c a r) =
+  bad_operands E (err_stmt (e_fname E) i) VStmtOperand [c] ++ vblock_fx E kc cb cc ic 0 a ++ vblock_fx E kc cb cc ic 0 r.
 Proof. cbn [vstmt_fx]. now rewrite !vblock_fx_loc. Qed.
-Lemma vfx_SLoop E cb cc ic i b c bi :
-  vstmt_fx E cb cc ic i (SLoop b c bi) =
-  vblock_fx E true true ic 0 b ++ vblock_fx E false false true 0 c
+Lemma vfx_SLoop E kc cb cc ic i b c bi :
+  vstmt_fx E kc cb cc ic i (SLoop b c bi) =
+  vblock_fx E kc true true ic 0 b ++ vblock_fx E kc false false true 0 c
   ++ bad_operands E (err_stmt (e_fname E) i) VStmtOperand (opt_list bi).
 Proof. cbn [vstmt_fx]. now rewrite !vblock_fx_loc. Qed.
-Lemma vfx_SSwitch E cb cc ic i sel cases :
-  vstmt_fx E cb cc ic i (SSwitch sel cases) =
-  bad_operands E (err_stmt (e_fname E) i) VStmtOperand [sel] ++ vcases_fx E cc ic i false cases.
+Lemma vfx_SSwitch E kc cb cc ic i sel cases :
+  vstmt_fx E kc cb cc ic i (SSwitch sel cases) =
+  bad_operands E (err_stmt (e_fname E) i) VStmtOperand [sel] ++ vcases_fx E kc cc ic i false cases.
 Proof.
   cbn [vstmt_fx]. f_equal. generalize false.
   induction cases as [|[[v b] ft] cs IH]; intro hd; cbn [vcases_fx]; [reflexivity|].
@@ -40,14 +40,14 @@ Ltac cfx_simp :=
           rewrite ?cf_when_stmt_non by reflexivity).
 
 Lemma cfx_block E b :
-  Forall (fun s => forall cb cc ic i, cf_errors (vstmt_fx E cb cc ic i s) = [] <-> cf_legalb cb cc ic s = true) b ->
-  forall cb cc ic k, cf_errors (vblock_fx E cb cc ic k b) = [] <-> cf_blockb cb cc ic b = true.
+  Forall (fun s => forall cb cc ic i, cf_errors (vstmt_fx E false cb cc ic i s) = [] <-> cf_legalb cb cc ic s = true) b ->
+  forall cb cc ic k, cf_errors (vblock_fx E false cb cc ic k b) = [] <-> cf_blockb cb cc ic b = true.
 Proof.
   induction 1 as [|x b Hx _ IH]; intros cb cc ic k; cbn [vblock_fx cf_blockb]; [tauto|].
   rewrite cf_app, app_nil_iff, Hx, IH, andb_true_iff. tauto.
 Qed.
 
-Lemma cfx_stmt E s : forall cb cc ic i, cf_errors (vstmt_fx E cb cc ic i s) = [] <-> cf_legalb cb cc ic s = true.
+Lemma cfx_stmt E s : forall cb cc ic i, cf_errors (vstmt_fx E false cb cc ic i s) = [] <-> cf_legalb cb cc ic s = true.
 Proof.
   induction s using stmt_ind'; intros cb cc ic i.
   - cbn [vstmt_fx cf_legalb]. cfx_simp. tauto.
@@ -55,7 +55,7 @@ Proof.
   - rewrite vfx_SIf, cf_legalb_SIf. cfx_simp. rewrite andb_true_iff.
     rewrite (cfx_block E a H), (cfx_block E r H0). tauto.
   - rewrite vfx_SSwitch, cf_legalb_SSwitch. cfx_simp.
-    assert (HC : forall hd, cf_errors (vcases_fx E cc ic i hd cases) = [] <-> cf_casesb cc ic cases = true).
+    assert (HC : forall hd, cf_errors (vcases_fx E false cc ic i hd cases) = [] <-> cf_casesb cc ic cases = true).
     { induction H as [|[[v b] ft] cs Hb _ IH]; intro hd; cbn [vcases_fx cf_casesb].
       - cfx_simp. tauto.
       - cfx_simp. rewrite andb_true_iff. unfold case_body in Hb. cbn in Hb.
@@ -75,18 +75,18 @@ Proof.
   - cbn [vstmt_fx cf_legalb]. destruct (other_stmt_checked t); cfx_simp; cbn; tauto.
 Qed.
 
-Lemma cfx_body E b : cf_errors (vblock_fx E false false false 0 b) = [] <-> cf_legal b.
+Lemma cfx_body E b : cf_errors (vblock_fx E false false false false 0 b) = [] <-> cf_legal b.
 Proof.
   rewrite cf_legal_iff. apply cfx_block. apply Forall_forall. intros s _. apply cfx_stmt.
 Qed.
 
-Lemma cf_vfunction_fx m f : cf_errors (vfunction_fx m f) = [] <-> cf_legal (f_body f).
+Lemma cf_vfunction_fx m f : cf_errors (vfunction_fx false m f) = [] <-> cf_legal (f_body f).
 Proof.
   unfold vfunction_fx. rewrite cf_app. destruct (quiet_head m f) as [-> _]. cbn [app]. apply cfx_body.
 Qed.
 
 Lemma cf_vfunctions_fx m : forall fs names,
-  cf_errors (vfunctions_fx_from m names fs) = [] <-> forall f, In f fs -> cf_legal (f_body f).
+  cf_errors (vfunctions_fx_from false m names fs) = [] <-> forall f, In f fs -> cf_legal (f_body f).
 Proof.
   induction fs as [|f fs IH]; intros names; cbn [vfunctions_fx_from].
   - split; [intros _ ? []|reflexivity].
@@ -136,11 +136,11 @@ Qed.
 Ltac bxq_tac :=
   repeat first [ reflexivity | apply bxq_app | apply bxq_ops | (apply bxq_when; reflexivity) ].
 
-Lemma bxq_block E b : Forall (fun s => forall cb cc ic i, bxquiet (vstmt_fx E cb cc ic i s)) b ->
-  forall cb cc ic k, bxquiet (vblock_fx E cb cc ic k b).
+Lemma bxq_block E kc b : Forall (fun s => forall cb cc ic i, bxquiet (vstmt_fx E kc cb cc ic i s)) b ->
+  forall cb cc ic k, bxquiet (vblock_fx E kc cb cc ic k b).
 Proof. induction 1; intros; cbn [vblock_fx]; [reflexivity|]. apply bxq_app; auto. Qed.
 
-Lemma bxq_stmt E s : forall cb cc ic i, bxquiet (vstmt_fx E cb cc ic i s).
+Lemma bxq_stmt E kc s : forall cb cc ic i, bxquiet (vstmt_fx E kc cb cc ic i s).
 Proof.
   induction s using stmt_ind'; intros cb cc ic i.
   - cbn [vstmt_fx]. unfold err_stmt. bxq_tac.
@@ -154,7 +154,7 @@ Proof.
   - cbn [vstmt_fx]. unfold err_stmt. destruct ic; bxq_tac.
   - cbn [vstmt_fx]. unfold err_stmt. destruct ic; bxq_tac.
   - cbn [vstmt_fx]. apply bxq_app; [unfold err_stmt; bxq_tac|apply bxq_ops].
-  - reflexivity.
+  - cbn [vstmt_fx]. unfold err_stmt. destruct kc; bxq_tac.
   - reflexivity.
   - cbn [vstmt_fx]. apply bxq_ops.
   - cbn [vstmt_fx]. apply bxq_ops.
@@ -162,12 +162,12 @@ Proof.
   - cbn [vstmt_fx]. destruct (other_stmt_checked t); [apply bxq_ops|reflexivity].
 Qed.
 
-Lemma bx_vfunctions_fx m : forall fs names, binding_errors_fx (vfunctions_fx_from m names fs) = [].
+Lemma bx_vfunctions_fx kc m : forall fs names, binding_errors_fx (vfunctions_fx_from kc m names fs) = [].
 Proof.
   induction fs as [|f fs IH]; intros names; cbn [vfunctions_fx_from]; [reflexivity|].
   rewrite !bx_app, IH. unfold vfunction_fx. rewrite bx_app.
   destruct (quiet_head m f) as (_ & _ & ->).
-  assert (B : binding_errors_fx (vblock_fx (env_of m f) false false false 0 (f_body f)) = []).
+  assert (B : binding_errors_fx (vblock_fx (env_of m f) kc false false false 0 (f_body f)) = []).
   { apply bxq_block. apply Forall_forall. intros s _. apply bxq_stmt. }
   rewrite B. destruct (_ && _); reflexivity.
 Qed.
@@ -216,16 +216,104 @@ Qed.
 Theorem fixed_cf_exact m :
   cf_errors (validate_model_fx m) = [] <-> forall f, In f (m_functions m) -> cf_legal (f_body f).
 Proof.
-  unfold validate_model_fx. rewrite !cf_app.
+  unfold validate_model_fx, validate_model_fxk. rewrite !cf_app.
   destruct (quiet_vtypes m) as [-> _], (quiet_vconstants m) as [-> _], (quiet_vglobals_fx m) as [-> _].
   rewrite cf_ventries_fx, app_nil_r. cbn [app]. apply cf_vfunctions_fx.
 Qed.
 
-Theorem fixed_bindings_exact m :
-  binding_errors_fx (validate_model_fx m) = [] <-> binding_rule_ok m.
+Theorem fixed_bindings_exact kc m :
+  binding_errors_fx (validate_model_fxk kc m) = [] <-> binding_rule_ok m.
 Proof.
-  unfold validate_model_fx. rewrite !bx_app.
+  unfold validate_model_fxk. rewrite !bx_app.
   destruct (quiet_vtypes m) as (_ & _ & ->), (quiet_vconstants m) as (_ & _ & ->), (quiet_vglobals_fx m) as (_ & _ & ->).
   unfold vfunctions_fx. rewrite bx_vfunctions_fx. cbn [app]. unfold ventries_fx, binding_rule_ok.
   apply bx_ventries_fx.
+Qed.
+
+(* ------------------------------------------------------------------ *)
+(* the suite-safe repair (kc = true): discard inside a continuing block is still reported *)
+
+Lemma nd_loc : forall b ic,
+  (fix blk (ic : bool) (b : list stmt) {struct b} : bool :=
+     match b with [] => true | x :: b' => no_discard_in_contb ic x && blk ic b' end) ic b = no_discard_in_cont_blockb ic b.
+Proof. induction b as [|x b IH]; intros; cbn [no_discard_in_cont_blockb]; [reflexivity|]. now rewrite IH. Qed.
+Lemma nd_SBlock ic b : no_discard_in_contb ic (SBlock b) = no_discard_in_cont_blockb ic b.
+Proof. cbn [no_discard_in_contb]. apply nd_loc. Qed.
+Lemma nd_SIf ic c a r : no_discard_in_contb ic (SIf c a r) = no_discard_in_cont_blockb ic a && no_discard_in_cont_blockb ic r.
+Proof. cbn [no_discard_in_contb]. now rewrite !nd_loc. Qed.
+Lemma nd_SLoop ic b c bi : no_discard_in_contb ic (SLoop b c bi) = no_discard_in_cont_blockb ic b && no_discard_in_cont_blockb true c.
+Proof. cbn [no_discard_in_contb]. now rewrite !nd_loc. Qed.
+Lemma nd_SSwitch ic sel cases : no_discard_in_contb ic (SSwitch sel cases) = no_discard_in_cont_casesb ic cases.
+Proof.
+  cbn [no_discard_in_contb]. induction cases as [|[[v b] ft] cs IH]; cbn [no_discard_in_cont_casesb]; [reflexivity|].
+  now rewrite nd_loc, IH.
+Qed.
+
+Lemma cfx2_block E b :
+  Forall (fun s => forall cb cc ic i, cf_errors (vstmt_fx E true cb cc ic i s) = [] <->
+                                      cf_legalb cb cc ic s = true /\ no_discard_in_contb ic s = true) b ->
+  forall cb cc ic k, cf_errors (vblock_fx E true cb cc ic k b) = [] <->
+                     cf_blockb cb cc ic b = true /\ no_discard_in_cont_blockb ic b = true.
+Proof.
+  induction 1 as [|x b Hx _ IH]; intros cb cc ic k; cbn [vblock_fx cf_blockb no_discard_in_cont_blockb]; [tauto|].
+  rewrite cf_app, app_nil_iff, Hx, IH, !andb_true_iff. tauto.
+Qed.
+
+Lemma cfx2_stmt E s : forall cb cc ic i,
+  cf_errors (vstmt_fx E true cb cc ic i s) = [] <-> cf_legalb cb cc ic s = true /\ no_discard_in_contb ic s = true.
+Proof.
+  induction s using stmt_ind'; intros cb cc ic i.
+  - cbn [vstmt_fx cf_legalb no_discard_in_contb]. cfx_simp. tauto.
+  - rewrite vfx_SBlock, cf_legalb_SBlock, nd_SBlock. now apply cfx2_block.
+  - rewrite vfx_SIf, cf_legalb_SIf, nd_SIf. cfx_simp. rewrite !andb_true_iff.
+    rewrite (cfx2_block E a H), (cfx2_block E r H0). tauto.
+  - rewrite vfx_SSwitch, cf_legalb_SSwitch, nd_SSwitch. cfx_simp.
+    assert (HC : forall hd, cf_errors (vcases_fx E true cc ic i hd cases) = [] <->
+                            cf_casesb cc ic cases = true /\ no_discard_in_cont_casesb ic cases = true).
+    { induction H as [|[[v b] ft] cs Hb _ IH]; intro hd; cbn [vcases_fx cf_casesb no_discard_in_cont_casesb].
+      - cfx_simp. tauto.
+      - cfx_simp. rewrite !andb_true_iff. unfold case_body in Hb. cbn in Hb.
+        rewrite (cfx2_block E b Hb), IH. tauto. }
+    rewrite HC. tauto.
+  - rewrite vfx_SLoop, cf_legalb_SLoop, nd_SLoop. cfx_simp. rewrite !andb_true_iff.
+    rewrite (cfx2_block E b H), (cfx2_block E c H0). tauto.
+  - cbn [vstmt_fx cf_legalb no_discard_in_contb]. destruct ic; rewrite cf_when_stmt_cf by reflexivity; rewrite negb_false_iff; tauto.
+  - cbn [vstmt_fx cf_legalb no_discard_in_contb]. destruct ic; rewrite cf_when_stmt_cf by reflexivity; rewrite negb_false_iff; tauto.
+  - cbn [vstmt_fx cf_legalb no_discard_in_contb]. rewrite cf_app, app_nil_iff, cf_when_stmt_cf by reflexivity.
+    rewrite cf_bad_operands by reflexivity. rewrite negb_true_iff. tauto.
+  - cbn [vstmt_fx cf_legalb no_discard_in_contb]. rewrite cf_when_stmt_cf by reflexivity. rewrite negb_true_iff. tauto.
+  - cbn [vstmt_fx cf_legalb no_discard_in_contb]. tauto.
+  - cbn [vstmt_fx cf_legalb no_discard_in_contb]. cfx_simp. tauto.
+  - cbn [vstmt_fx cf_legalb no_discard_in_contb]. cfx_simp. tauto.
+  - cbn [vstmt_fx cf_legalb no_discard_in_contb]. cfx_simp. tauto.
+  - cbn [vstmt_fx cf_legalb no_discard_in_contb]. destruct (other_stmt_checked t); cfx_simp; cbn; tauto.
+Qed.
+
+Lemma cf_vfunction_fx2 m f :
+  cf_errors (vfunction_fx true m f) = [] <-> cf_legal (f_body f) /\ no_discard_in_continuing (f_body f).
+Proof.
+  unfold vfunction_fx, no_discard_in_continuing. rewrite cf_app. destruct (quiet_head m f) as [-> _]. cbn [app].
+  rewrite cf_legal_iff. apply cfx2_block. apply Forall_forall. intros s _. apply cfx2_stmt.
+Qed.
+
+Lemma cf_vfunctions_fx2 m : forall fs names,
+  cf_errors (vfunctions_fx_from true m names fs) = [] <->
+  forall f, In f fs -> cf_legal (f_body f) /\ no_discard_in_continuing (f_body f).
+Proof.
+  induction fs as [|f fs IH]; intros names; cbn [vfunctions_fx_from].
+  - split; [intros _ ? []|reflexivity].
+  - rewrite !cf_app, !app_nil_iff, cf_vfunction_fx2, IH.
+    assert (HW : forall b, cf_errors (when b (err_mod VFuncDupName)) = []) by (intros []; reflexivity).
+    rewrite HW. split.
+    + intros (_ & H1 & H2) g [<-|Hg]; auto.
+    + intros H. split; [reflexivity|]. split; [apply H; now left|]. intros g Hg. apply H. now right.
+Qed.
+
+Theorem fixed2_cf_exact m :
+  cf_errors (validate_model_fx2 m) = [] <->
+  forall f, In f (m_functions m) -> cf_legal (f_body f) /\ no_discard_in_continuing (f_body f).
+Proof.
+  unfold validate_model_fx2, validate_model_fxk. rewrite !cf_app.
+  destruct (quiet_vtypes m) as [-> _], (quiet_vconstants m) as [-> _], (quiet_vglobals_fx m) as [-> _].
+  rewrite cf_ventries_fx, app_nil_r. cbn [app]. apply cf_vfunctions_fx2.
 Qed.
